@@ -41,7 +41,9 @@ def denoteStmts (d : FnDef) (a : Val) : List Stmt → Int → Body
     .call g (a + off) ctx fl (fun o => match o with
       | .val (some v) => denoteStmts d a rest (acc + v)
       | .val none => denoteStmts d a rest acc
-      | .exc c m => if caught then denoteStmts d a rest (acc - 1000 - c) else .ret (.exc c m))
+      | .exc c m =>
+        -- a handler cannot tell an opaque exception from its replayed form (MementoException)
+        if caught then denoteStmts d a rest (acc - 1000 - (if c = clsOpaque then clsMemento else c)) else .ret (.exc c m))
   | .batch g offs ctx fl raiseFirst :: rest, acc =>
     .batch g (offs.map (a + ·)) ctx fl (fun r => match r with
       | .error e => .ret e                                        -- the batch call itself raised
